@@ -43,6 +43,14 @@ def check_call(M, fq, call, callee):
         for x, dflt in zip(a.kwonlyargs, a.kw_defaults):
             if dflt is None and x.arg not in kws:
                 errs.append(f"missing required keyword-only argument {x.arg!r}")
+    # cross-binding: a variable named like one parameter of the callee is bound to a different parameter
+    if not errs:
+        ps = M.params(callee)
+        for p, a in M.bind_args(callee, call).items():
+            if isinstance(a, ast.Name) and a.id != p and a.id in ps:
+                other = M.bind_args(callee, call).get(a.id)
+                errs.append(f"argument `{a.id}` is bound to parameter `{p}` although the callee has a parameter `{a.id}`"
+                            + (f" (which receives `{norm(other)}`)" if other is not None else "") + ": swapped arguments")
     return errs
 
 
@@ -60,7 +68,8 @@ def run(rep, M, rid, scope=None):
                 errs = check_call(M, fq, call, callee)
                 construct = f"{fq.replace('matid.', '')} -> {callee.replace('matid.', '')}: {norm(call)[:70]}"
                 if errs:
-                    rep.violation(rid, construct, "TypeError on every execution of this call: " + "; ".join(errs),
+                    kind = "swapped arguments: " if any("swapped" in e for e in errs) else "TypeError on every execution of this call: "
+                    rep.violation(rid, construct, kind + "; ".join(errs),
                                   M.where(fq, call))
                 else:
                     rep.ok(rid, construct)
